@@ -16,6 +16,7 @@
 
 #pragma once
 
+#include <optional>
 #include "pydjinni/jni/support.hpp"
 #include <cassert>
 #include <chrono>
